@@ -156,7 +156,9 @@ INFO = dict(
              "over `order` are about orders 0 and 1 of scipy"],
     assumptions=["inputs are small integers / dyadic rationals so float64 arithmetic in the implementation is exact",
                  "sampling-path cases avoid rounding ties of scipy (coordinate + 1/2 integral)",
-                 "OpenCV is not installed in this environment, so warp_to_shape takes the scipy path"],
+                 "OpenCV is not installed in this environment, so warp_to_shape takes the scipy path",
+                 "every crop-family case is run with return_transform False and True; the model returns the same image "
+                 "for both (the transform object is judged by the oracle: result[p] == source[T(p)])"],
     design_ref="DESIGN.md section 6, C13")
 # obligations over the source translation (GenProps/C13Src.lean; re-checked against the text regenerated from /repo)
 SRC_GEN = ["genConstrainPointsToBounds", "genCrop", "genPcBounds", "genPcRange", "genCropToPointcloud",
@@ -463,14 +465,17 @@ CROP_SITE = {"crop": "crop", "crop_list": "crop", "pointcloud": "crop_to_pointcl
              "true_mask": "crop_to_true_mask"}
 
 
-def call_crop(img, case):
+def call_crop(img, case, return_transform=False):
     """the public call of the case; with case['omit'] every argument that has a default is left out (the
-    generator then gives the case the default values, which the model applies from its own table)"""
+    generator then gives the case the default values, which the model applies from its own table);
+    return_transform=True asks for (image, transform)"""
     np = np_()
     from menpo.shape import PointCloud
     how = case.get("how", "crop")
     omit = bool(case.get("omit"))
     kw = {} if omit else {"constrain_to_boundary": bool(case["constrain"])}
+    if return_transform:
+        kw["return_transform"] = True
     if how == "crop":
         return img.crop(np.array(case["mn"], dtype=float), np.array(case["mx"], dtype=float), **kw)
     if how == "crop_list":
@@ -624,6 +629,76 @@ def run_crop_case(ctx, case, lines, cid):
             failed = True
             ctx.fail(site + ".boundary", "wrong-exception-" + type(err).__name__,
                      "out-of-bounds request refused with %s instead of ImageBoundaryError" % type(err).__name__, rp)
+    # ---- the same call with return_transform=True: the image is judged exactly as above (bit for bit, special pixel
+    # values included), the transform by what the text says: result[p] == source[T(p)] for every pixel p of the result
+    if not degenerate:
+        rp2 = dict(rp, return_transform=True,
+                   python="from harness import c13; img = c13.build_image(case); out, T = c13.call_crop(img, case, "
+                          "return_transform=True)  # case = the 'case' dict of this replay")
+        img2 = build_image(case)
+        try:
+            res2 = call_crop(img2, case, return_transform=True)
+            err2 = None
+        except Exception as e:
+            res2, err2 = None, e
+        ctx.count("crop-return-transform:" + CROP_SITE[how])
+        if inside or case["constrain"]:
+            blo, bhi = (lo, hi) if inside else (clo, chi)
+            exp = src[(slice(None),) + tuple(slice(a, b) for a, b in zip(blo, bhi))]
+            if err2 is not None:
+                ctx.fail(site + ".boundary", "return-transform-raised-" + err_kind(err2),
+                         "request %s..%s on shape %s (constrain=%s, return_transform=True) raised %s; it must return the "
+                         "%s" % (lo, hi, spatial, case["constrain"], type(err2).__name__,
+                                 "requested block" if inside else "intersection with the image"), rp2)
+            elif not (isinstance(res2, tuple) and len(res2) == 2 and hasattr(res2[0], "pixels")):
+                # the return convention is not a clause of the property text: observation
+                ctx.mismatch("crop-return-transform", "return_transform=True did not return (image, transform): %r" % (
+                    type(res2).__name__,), dict(rp2, op="crop-return-transform"))
+            else:
+                out2, tr2 = res2
+                ok2 = (out2.pixels.shape == exp.shape and out2.pixels.dtype == src.dtype and same_bits(out2.pixels, exp))
+                if not ok2:
+                    pat = ("shape" if out2.pixels.shape != exp.shape else
+                           "dtype" if out2.pixels.dtype != src.dtype else "block-differs")
+                    ctx.fail(site + ".pixels", "return-transform-" + pat,
+                             "crop %s..%s of shape %s with return_transform=True: the returned image (shape %s, dtype %s) "
+                             "is not the source block %s..%s (shape %s, dtype %s), bit for bit" % (
+                                 lo, hi, spatial, out2.pixels.shape, out2.pixels.dtype, blo, bhi, exp.shape, src.dtype), rp2)
+                if case.get("lms"):
+                    want = np.array(case["lms"], dtype=float) - np.array(blo, dtype=float)
+                    got = out2.landmarks["g"].points if out2.has_landmarks else None
+                    if got is None or got.shape != want.shape or not np.allclose(got, want, rtol=0, atol=1e-9):
+                        ctx.fail(site + ".landmarks", "return-transform-not-shifted-by-minimum",
+                                 "landmarks after crop(return_transform=True) are %s, required %s" % (
+                                     None if got is None else got.tolist(), want.tolist()), rp2)
+                # the transform: result[p] == source[T(p)] for every pixel index p of the result
+                if ok2 and exp.size and hasattr(tr2, "apply"):
+                    grid = np.indices(out2.pixels.shape[1:]).reshape(len(spatial), -1).T
+                    try:
+                        tp = np.asarray(tr2.apply(grid.astype(float)))
+                        ti = np.rint(tp).astype(np.int64)
+                        good = (tp.shape == grid.shape and bool(np.all(np.abs(tp - ti) < 1e-9))
+                                and bool(np.all(ti >= 0)) and bool(np.all(ti < np.array(spatial))))
+                        if good:
+                            a = out2.pixels[(slice(None),) + tuple(grid.T)]
+                            b = src[(slice(None),) + tuple(ti.T)]
+                            good = same_bits(np.ascontiguousarray(a), np.ascontiguousarray(b))
+                    except Exception:
+                        good = False
+                    if not good:
+                        ctx.fail(site + ".transform", "result-is-not-source-at-transform",
+                                 "crop %s..%s with return_transform=True: the returned transform does not send every "
+                                 "pixel p of the result to the source pixel it equals (result[p] == source[T(p)])" % (
+                                     lo, hi), rp2)
+        else:
+            if err2 is None:
+                ctx.fail(site + ".boundary", "return-transform-silently-clipped",
+                         "request %s..%s leaves the image of shape %s with constraining disabled and "
+                         "return_transform=True: no ImageBoundaryError" % (lo, hi, spatial), rp2)
+            elif not isinstance(err2, ImageBoundaryError):
+                ctx.fail(site + ".boundary", "return-transform-wrong-exception-" + type(err2).__name__,
+                         "out-of-bounds request (return_transform=True) refused with %s instead of ImageBoundaryError" % (
+                             type(err2).__name__,), rp2)
     # ---- model requests
     obs = {}
     c = "1" if case["constrain"] else "0"
